@@ -30,6 +30,8 @@ pub enum VOp {
     /// write x.a=<v> inside transaction view i
     TxWrite(u8, u8),
     TxCommit(u8),
+    /// explicit `rollback()` of transaction view i (as opposed to dropping it: `Close`)
+    TxRollback(u8),
     Close(u8),
 }
 
@@ -46,6 +48,7 @@ impl std::fmt::Display for VOp {
             VOp::TxOpen => write!(f, "tx+"),
             VOp::TxWrite(i, v) => write!(f, "tx-write v{i} x.a={v}"),
             VOp::TxCommit(i) => write!(f, "tx-commit v{i}"),
+            VOp::TxRollback(i) => write!(f, "tx-rollback v{i}"),
             VOp::Close(i) => write!(f, "close v{i}"),
         }
     }
@@ -91,6 +94,9 @@ impl VOp {
         }
         if let Some(r) = s.strip_prefix("tx-commit ") {
             return Ok(VOp::TxCommit(idx(r)?));
+        }
+        if let Some(r) = s.strip_prefix("tx-rollback ") {
+            return Ok(VOp::TxRollback(idx(r)?));
         }
         if let Some(r) = s.strip_prefix("close ") {
             return Ok(VOp::Close(idx(r)?));
@@ -376,6 +382,14 @@ impl Property for ViewProp {
                     }
                 }
             }
+            VOp::TxRollback(i) => {
+                let view = vw.views[*i as usize].take().ok_or_else(|| Violation::new("harness", "rollback closed"))?;
+                match view.kind {
+                    ViewKind::Sw(tx) => tx.rollback(),
+                    ViewKind::Occ(tx) => tx.rollback(),
+                    _ => return Err(Violation::new("harness", "rollback on non-tx")),
+                }
+            }
             VOp::Close(i) => {
                 vw.views[*i as usize] = None;
             }
@@ -446,6 +460,7 @@ impl Property for ViewProp {
                 ViewKind::Sw(_) | ViewKind::Occ(_) => {
                     ops.push(VOp::TxWrite(i, 1));
                     ops.push(VOp::TxCommit(i));
+                    ops.push(VOp::TxRollback(i));
                 }
             }
             ops.push(VOp::Close(i));
